@@ -53,6 +53,10 @@ CHECKS = {
    technique="TLC checks size stationarity of the stream-reader model (StreamSelect.tla via MC_Retention.tla) for k repeated records with and without filtered-out records; real transforms of 3000 / 200000 repeated records per format are probed for the node count reachable from the k-th record and validated by TLC (Trace_Retention.tla)",
    text="Model: the partial tree at the k-th delivery has the same size for all k>=2 (k<=6/8) when nothing is attached outside the records; with separators attached outside records the model exhibits the accumulation. Code: 16 cases over all seven formats stream thousands (thorough: 200k) of records through the real Transform; the harness counts the nodes reachable from each probed record's root and TLC requires size_k <= max(size_1..8). One known finding (XML whitespace character data between records) is listed.",
    note="Trusted: TLC; node count as the measure of retention (reader buffers are bounded by construction and not measured). Records are identical within a case."),
+ "C07": dict(cat="model_checking", design="5/C07",
+   technique="TLA+ spec EDITokens.tla (left-to-right reference scanner vs. the code's escape-parity index search, split and unescape; CR/LF rules; element lookup) checked by TLC on every short symbol string x configuration; emitted cases replayed on edi.NonValidatingReader and the full EDI reader; random logical segments re-tokenized by TLC (Trace_EDITokens.tla)",
+   text="TLC proves, for every symbol string up to 4 (thorough 5) symbols and all 24 delimiter/release/CRLF configurations, that the code's formulation of splitting and unescaping equals the left-to-right reference and that escaping round-trips. All cases (sampled above length 3) are replayed on the real tokenizer in ASCII, multi-byte-rune and two-character renderings, and on the full reader for six element-declaration sets. Random unicode segments with long elements and chunked delivery are round-tripped and re-tokenized by TLC.",
+   note="Trusted: TLC, the symbol renderer. go-corelib's scanner/ByteUnescape are exercised but not modelled beyond what EDITokens.tla states."),
 }
 
 def main():
